@@ -10,7 +10,7 @@
    [C28_components_linearizable] instantiates the premise of part 1 with it. *)
 From Coq Require Import String List NArith Bool.
 From LV Require Import model.LockDiscipline model.Lin proofs.LinSim proofs.LinHW proofs.LinHB proofs.Lin proofs.LinTable
-  model.Wlru model.Semaphore model.LinObjects proofs.LinInstances gen.LockTable.
+  model.Wlru model.Semaphore model.LinObjects proofs.LinInstances proofs.LinBuffer gen.LockTable.
 Import ListNotations.
 Local Open Scope string_scope.
 
@@ -177,6 +177,22 @@ Theorem C28_flushable_race_free :
     ~ race fstate fop fres (option fres) (os_fin fop fres) nowait (fkind checked_table) c.
 Proof. exact (flushable_race_free checked_table C28_flushable_table_check). Qed.
 
+(* EventsBuffer, the MUTATORS PushEvent / Clear, over model/Buffer.v (C14, repaired version); the callbacks run
+   inside the critical section and are part of the operation's effect in the model (oracles [fc], [fp] for the
+   application's Check / Process).  Total / IsBuffered are not operations of this object (recorded finding). *)
+Theorem C28_buffer_table_check : tk_check bkeys bk_readonly checked_table = true.
+Proof. vm_compute. reflexivity. Qed.
+
+Theorem C28_buffer_mutators_linearizable :
+  forall (fc fp : list Buffer.out -> Buffer.entry -> bool) (limN limS : N) (s0 : Buffer.st) tr c,
+    exec Buffer.st bop (option Buffer.out) (option (option Buffer.out)) (os_linit bop (option Buffer.out))
+         (os_mstep _ _ _ (bstep fc fp limN limS)) (os_fin bop (option Buffer.out)) nowait nowstep
+         (bkind checked_table) s0 tr c ->
+    linearizable Buffer.st bop (option Buffer.out) (option (option Buffer.out)) (os_linit bop (option Buffer.out))
+         (os_mstep _ _ _ (bstep fc fp limN limS)) (os_fin bop (option Buffer.out)) nowait nowstep s0
+         (hist bop (option Buffer.out) tr).
+Proof. exact (fun fc fp limN limS => buffer_mutators_linearizable fc fp limN limS checked_table C28_buffer_table_check). Qed.
+
 (* DataSemaphore, including the blocking Acquire (Cond.Wait loop), over model/Semaphore.v (C30) *)
 Theorem C28_semaphore_table_check : tk_check skeys sk_readonly checked_table = true.
 Proof. vm_compute. reflexivity. Qed.
@@ -331,6 +347,8 @@ Print Assumptions C28_wlru_sequential_spec_is_the_model.
 Print Assumptions C28_flushable_table_check.
 Print Assumptions C28_flushable_linearizable.
 Print Assumptions C28_flushable_race_free.
+Print Assumptions C28_buffer_table_check.
+Print Assumptions C28_buffer_mutators_linearizable.
 Print Assumptions C28_semaphore_table_check.
 Print Assumptions C28_semaphore_linearizable.
 Print Assumptions C28_semaphore_race_free.
